@@ -207,7 +207,7 @@ class Shapes:
                     return None
                 dims.append(ln)
             return tuple(dims)
-        if name == 'outer':
+        if name in ('outer', 'add_outer', 'sub_outer'):
             la, lb = g(0), g(1)
             if la is None or lb is None or len(la) != 1 or len(lb) != 1:
                 return None
